@@ -26,8 +26,10 @@ SPEC = dict(
         text="Lean: sequential Reload model (startup acceptance, hash comparison, callbacks) with reload_iff / reject_keeps_old / "
              "notify_once over all histories, and a small-step semantics of overlapping triggers (read+build; compare; "
              "lock-assign-unlock; callbacks) with theorems over every schedule of any number of triggers and file writes. "
-             "For the code as it is the full statements are refuted by proved witnesses (warnings-only config never reloads; "
-             "two overlapping triggers apply twice / leave a stale config) and the parts that hold are proved (_partial); the "
+             "For the code as it is (compare-and-assign under f.mux since 8a38f8f, files still read before the lock) the full "
+             "statements are refuted by proved witnesses (warnings-only config never reloads; a stale snapshot is assigned after "
+             "a newer one: content applied/notified twice, stale config left running) and the parts that hold are proved "
+             "(_partial, incl. no two successive assignments of the same file version on any schedule); the "
              "same statements are proved for the repaired shape (warnings tolerated, Reload serialized). Sequential model tied to "
              "config/file_config.go by replaying generated histories on the real fileConfig; monitor on the implementation's own "
              "observations (real startup verdict vs. reload outcome, callback counts, getter values); concurrency stress judged "
@@ -38,7 +40,7 @@ SPEC = dict(
                   "+ model/implementation correspondence check",
     ),
     assumptions=["the two files are read as one snapshot (a write between reading the config and the rules file is not modelled)",
-                 "the unlocked hash comparison is one atomic read; the locked assignment is one atomic step (all other accesses hold f.mux)",
+                 "lock; compare; assign; unlock of Reload is one atomic step (every other access to these fields holds f.mux)",
                  "listeners are registered before the triggers that notify them overlap (RegisterReloadCallback is not raced with Reload)",
                  "a content is identified with its MD5 hash"],
 )
